@@ -5,21 +5,21 @@ from checks.bbi_family import *
 def main():
     run = Run("C04")
     cfgs = ["MC_BigBed_t1.cfg", "MC_BigBed_t2.cfg"] if run.thorough else ["MC_BigBed_q1.cfg", "MC_BigBed_q2.cfg"]
-    beh = emit(run, "MC_BigBed", cfgs)
-    # deeper layouts (5..8 entries, one entry per block, fan-out 2 => 3- and 4-level indexes) by random walks
-    deep = emit_sim(run, "MC_BigBed", "MC_BigBed_deep.cfg", 6000 if run.thorough else 500)
-    beh += deep
     sizes = lambda b: [b["L"]] * b["NC"]
-    cases = make_cases(beh, "bb", sizes, run, allq=1)
-    for k, c in enumerate(cases):
-        c["cached"] = k % 2        # every other file: all queries in sequence through one caching reader
+
+    def build(beh, k0):
+        cases = make_cases(beh, "bb", sizes, run, allq=1, k0=k0)
+        for k, c in enumerate(cases):
+            c["cached"] = k % 2        # every other file: all queries in sequence through one caching reader
+        return cases
     def nt(o):
         # a block whose largest end is not the last entry's end
         its = o["items"]
         return any(its[i][0] == its[i + 1][0] and its[i][2] > its[i + 1][2] for i in range(len(its) - 1))
     desc = lambda o: {"result": o["obs"].get("result"), "err": o["obs"].get("err"),
                       "failing_queries": [q for q in o["obs"].get("queries", [])][:60]}
-    obs = judge(run, "C04", "Obs_BigBed", cases, nt, desc)
+    # exhaustive layouts, then deeper ones (5..8 entries, one entry per block, fan-out 2 => 3- and 4-level indexes) by random walks
+    obs = run_batches(run, "C04", "MC_BigBed", cfgs, "Obs_BigBed", nt, desc, build, sims=[("MC_BigBed_deep.cfg", 6000 if run.thorough else 500)], size=150000)
     run.cov["queries_per_file"] = "all 0 <= s < e <= L on every chromosome"
     run.cov["rule"] = ("every start-sorted layout within the TLC bounds x ips {1,2(,3)} x block size {2,3}, ALL ranges queried; non-trivial = an entry "
                        "whose end exceeds the end of the next entry of its chromosome; distinct by (items, ips, zooms)")
